@@ -17,6 +17,10 @@ def main():
     tracked = subprocess.run(["git", "-C", common.VERIF, "ls-files", "py/checks"], capture_output=True, text=True).stdout.split()
     tracked = {os.path.basename(t)[:-3] for t in tracked}
     have = [h for h in have if h in tracked]
+    # ... and that the main thread has accepted as finished (registered.json)
+    reg_path = os.path.join(common.VERIF, "registered.json")
+    registered = set(json.load(open(reg_path))) if os.path.exists(reg_path) else set()
+    have = [h for h in have if h.upper() in registered]
     checks, claimed = [], set()
     for m in have:
         mod = importlib.import_module(f"checks.{m}")
